@@ -45,7 +45,7 @@ def _body(msg) -> bytes:
     return raw[6:]
 
 
-def object_update_body(handle: int, entries: Sequence[Tuple[int, int, int]], salt: int = 0) -> bytes:
+def object_update_body(handle: int, entries: Sequence[Tuple[int, int, int]], salt: int = 0, text: bytes = b"") -> bytes:
     """entries: (local id, full id number, parent local id). `salt` perturbs a property so that a
     repeated update is a real change."""
     from hippolyzer.lib.base.datatypes import Vector3
@@ -58,7 +58,7 @@ def object_update_body(handle: int, entries: Sequence[Tuple[int, int, int]], sal
         b = Block(
             "ObjectData", ID=local, FullID=full_id(full), PCode=pcode, Scale=Vector3(0.5, 0.5, 0.5),
             UpdateFlags=268568894, PathCurve=16, ParentID=parent, ProfileCurve=1, PathScaleX=100, PathScaleY=100,
-            NameValue=None, TextureEntry=TE, TextColor=b'\x00\x00\x00\x00', ExtraParams=b'\x00', CRC=1000 + salt,
+            NameValue=None, Text=text, TextureEntry=TE, TextColor=b'\x00\x00\x00\x00', ExtraParams=b'\x00', CRC=1000 + salt,
             Material=salt & 0x7, fill_missing=True)
         blocks.append(b)
     msg = Message("ObjectUpdate", Block("RegionData", RegionHandle=handle, TimeDilation=123), *blocks)
